@@ -64,7 +64,7 @@ Conforming(kind, b) ==
   /\ LET it == Body(kind, b).item IN
      IF kind \in {"sig", "csig"} THEN LimSig3(it)
      ELSE /\ LimProt(it.xs[1]) /\ LimUnprot(it.xs[2])
-          /\ kind = "sign" => \A i \in 1..Len(it.xs[4].xs) : LimSig3(it.xs[4].xs[i])
+          /\ (kind = "sign" => (\A i \in 1..Len(it.xs[4].xs) : LimSig3(it.xs[4].xs[i])))
 
 \* ---------------------------------------------------------------------------
 \* Sig_structure (RFC 9052 4.4) and Countersign_structure (RFC 9338 3.3)
